@@ -197,6 +197,9 @@ def runOp (op : List String) (h : Heap) (objs : List Obj) : Option (Heap × List
     let (h', v') := v.resize K h (tokN c)
     some (h', [.vec v'], (if v.cap < tokN c then "realloc" else "inplace") ++ (if tokN c < v.size then "_shrink" else "_grow"))
   | ["sv_erase", a, b], [.vec v] => let (h', v') := v.eraseRange h (tokN a) (tokN b); some (h', [.vec v'], "erase")
+  | ["sv_erase_one", a], [.vec v] =>
+    let (h', v', _) := v.eraseOne h (tokN a)
+    some (h', [.vec v'], if tokN a + 1 == v.size then "last" else if tokN a == 0 then "first" else "middle")
   | ["sv_clear"], [.vec v] => let (h', v') := v.clear h; some (h', [.vec v'], "clear")
   | ["sv_swap", "1"], [.vec v] => some (h, [.vec (SVec.mSwap v v).1], "self")
   | ["sv_swap", "0"], [.vec v, .vec w] => let (a, b) := SVec.mSwap v w; some (h, [.vec a, .vec b], "swap")
@@ -357,6 +360,9 @@ def processLine (line : String) : IO Unit := do
           let moved := opn == "ph_concat" && (path == "moved" || path == "movedPending")
           if want != got && !(opn == "ph_concat" && !moved) then
             nbad := nbad + 1; bad "ownership" s!"path {path}: model {short want} | real {short got}"
+          -- `erase(iterator)` returns the position of the erased element (model: `(v.eraseOne h i).2.2 = i`)
+          if opn == "sv_erase_one" && rextra.headD "" != op.getD 1 "?" then
+            nbad := nbad + 1; bad "return_position" s!"model {op.getD 1 "?"} real {rextra.headD ""}"
           -- liveness of the cells seen before the call
           let liveBits := live.drop 1
           let wrong := (List.range (tokN (live.headD "0"))).filter (fun a => (h'.cells a).isSome != (liveBits.getD a "0" == "1"))
